@@ -630,6 +630,12 @@ class MQTTProtocol(MQTTBaseProtocol):
             del self.factory.windowPubRelease[self.addr][k]
             request.deferred.errback(reason)
 
+        # messages still held back in the queue belong to the session too
+        while self.factory.queuePublishTx[self.addr]:
+            request = self.factory.queuePublishTx[self.addr].popleft()
+            if request.msgId:   # QoS 0 deferreds have already fired
+                request.deferred.errback(reason)
+
 
     # -------------------------------------
     # Helper methods (publisher/subscriber)
